@@ -54,6 +54,185 @@ pub fn run_subject(lines: &[String], seed: u64) -> Result<(Sess, RunEnd), String
     Ok((s, end))
 }
 
+/// Program-visible transcript of a subject run: consecutive prints merged, then the
+/// request / reply / REENTER / EXTRA IGNORED markers in order.
+pub fn subject_transcript(recs: &[Rec]) -> Vec<String> {
+    let mut out = vec![];
+    let mut buf = String::new();
+    let flush = |buf: &mut String, out: &mut Vec<String>| {
+        if !buf.is_empty() {
+            out.push(format!("print:{}", buf));
+            buf.clear();
+        }
+    };
+    for r in recs {
+        match r {
+            Rec::Print(p) => buf.push_str(p),
+            Rec::Request => {
+                flush(&mut buf, &mut out);
+                out.push("request".into());
+            }
+            Rec::Reply(x) => {
+                flush(&mut buf, &mut out);
+                out.push(format!("reply:{}", x));
+            }
+            Rec::Reenter => {
+                flush(&mut buf, &mut out);
+                out.push("reenter".into());
+            }
+            Rec::ExtraIgnored => {
+                flush(&mut buf, &mut out);
+                out.push("extra".into());
+            }
+            _ => {}
+        }
+    }
+    flush(&mut buf, &mut out);
+    out
+}
+
+/// Runs the reference machine with a reply script; returns the machine, how it ended and the
+/// transcript in the format of `subject_transcript`. `on_step` sees the machine after every
+/// step (used for lockstep observers).
+pub fn run_model_script(prog: &ProgramAst, seed: u64, warnings: bool, replies: &[String], mut on_step: impl FnMut(&Machine)) -> (Machine, ModelEnd, Vec<String>) {
+    let mut m = Machine::new(prog.clone(), seed);
+    m.warnings = warnings;
+    let mut out: Vec<String> = vec![];
+    let mut buf = String::new();
+    let mut seen = 0usize;
+    let mut it = replies.iter();
+    let mut reply: Option<String> = None;
+    let end = loop {
+        if m.steps > MODEL_STEP_CAP {
+            break ModelEnd::Cap;
+        }
+        let st = m.step(reply.as_deref());
+        reply = None;
+        on_step(&m);
+        for e in &m.events[seen..] {
+            match e {
+                MEvent::Print(p) => buf.push_str(p),
+                MEvent::Reenter | MEvent::ExtraIgnored => {
+                    if !buf.is_empty() {
+                        out.push(format!("print:{}", buf));
+                        buf.clear();
+                    }
+                    out.push(if matches!(e, MEvent::Reenter) { "reenter".into() } else { "extra".into() });
+                }
+                _ => {}
+            }
+        }
+        seen = m.events.len();
+        match st {
+            Step::Ran => {}
+            Step::Ended => break ModelEnd::Ended,
+            Step::Stopped(_) => break ModelEnd::Stopped,
+            Step::Err(Fail::Kind(k), l) => break ModelEnd::Err(k.to_string(), l),
+            Step::Err(Fail::Undefined(w), _) => break ModelEnd::Undefined(w.to_string()),
+            Step::NeedInput => {
+                if !buf.is_empty() {
+                    out.push(format!("print:{}", buf));
+                    buf.clear();
+                }
+                out.push("request".into());
+                match it.next() {
+                    Some(r) => {
+                        out.push(format!("reply:{}", r));
+                        reply = Some(r.clone());
+                    }
+                    None => break ModelEnd::NeedInput,
+                }
+            }
+        }
+    };
+    if !buf.is_empty() {
+        out.push(format!("print:{}", buf));
+    }
+    (m, end, out)
+}
+
+/// Final scalar variables of the reference machine in the snapshot's format.
+pub fn model_variables(m: &Machine) -> Vec<(String, abasic_core::verif::VerifValue)> {
+    use abasic_core::verif::VerifValue;
+    let mut v: Vec<(String, VerifValue)> = m
+        .vars
+        .iter()
+        .map(|(k, v)| (k.clone(), match v { Val::N(n) => VerifValue::Num(n.to_bits()), Val::S(s) => VerifValue::Str(s.clone()) }))
+        .collect();
+    v.sort();
+    v
+}
+
+/// Runs one program with a reply script on the real interpreter and on the reference machine
+/// and compares the transcripts (prints, requests, REENTER, EXTRA IGNORED in order), the way
+/// the run ends and the scalar variables left behind.
+pub fn compare_script(prog: &ProgramAst, replies: &[String], acc_cap: &mut bool, acc_undef: &mut bool) -> (Option<(String, String)>, Machine, ModelEnd) {
+    let (m, mend, mtr) = run_model_script(prog, 1, false, replies, |_| {});
+    if let ModelEnd::Undefined(_) = mend {
+        *acc_undef = true;
+        return (None, m, mend);
+    }
+    let lines = render_program(prog);
+    let mut s = Sess::new();
+    if let Err(e) = load_program(&mut s, &lines) {
+        return (Some(("program text rejected".into(), e)), m, mend);
+    }
+    s.recs.clear();
+    s.it.randomize(1);
+    let mut it = replies.iter().cloned();
+    let send = s.run_line("RUN", &mut it, SUBJECT_TURN_CAP);
+    let str_ = subject_transcript(&s.recs);
+    let show = |t: &[String]| truncate(&t.join(" / "), 200);
+    let problem = match (&send, &mend) {
+        (RunEnd::Panic(p), _) => Some((format!("panic {}", short_panic(p)), format!("subject panicked: {}", p))),
+        (RunEnd::Cap, _) | (_, ModelEnd::Cap) => {
+            *acc_cap = true;
+            // compare the common prefix; the last entry of the shorter transcript may be partial
+            let n = str_.len().min(mtr.len()).saturating_sub(1);
+            if str_[..n] != mtr[..n] {
+                Some(("transcript prefix differs on a long-running program".into(), format!("subject {:?}; reference {:?}", show(&str_), show(&mtr))))
+            } else {
+                None
+            }
+        }
+        (RunEnd::Idle, ModelEnd::Ended) | (RunEnd::NoReply, ModelEnd::NeedInput) => {
+            if str_ != mtr {
+                Some(("transcript differs".into(), format!("subject {:?}; reference {:?}", show(&str_), show(&mtr))))
+            } else {
+                None
+            }
+        }
+        (RunEnd::Error(k, l), ModelEnd::Err(mk, ml)) => {
+            if str_ != mtr {
+                Some(("transcript before the error differs".into(), format!("subject {:?}; reference {:?}", show(&str_), show(&mtr))))
+            } else if k != mk {
+                Some((format!("error kind {} expected {}", k, mk), format!("subject failed with {} in {:?}, reference with {} in {:?}", k, l, mk, ml)))
+            } else if l != ml {
+                Some((format!("error {} line {:?} expected {:?}", k, l, ml), format!("subject reports {} in line {:?}, reference in line {:?}", k, l, ml)))
+            } else {
+                None
+            }
+        }
+        (a, b) => Some((
+            format!("outcome {} expected {}", short_end(a), short_mend(b)),
+            format!("subject ended {:?} ({:?}); reference ended {:?} ({:?})", a, show(&str_), b, show(&mtr)),
+        )),
+    };
+    let problem = problem.or_else(|| {
+        if matches!(send, RunEnd::Cap) || matches!(mend, ModelEnd::Cap) {
+            return None;
+        }
+        let sv = s.it.verif_snapshot().variables;
+        let mv = model_variables(&m);
+        if sv != mv {
+            Some(("variables left behind differ".into(), format!("subject {:?}; reference {:?}", sv, mv)))
+        } else {
+            None
+        }
+    });
+    (problem, m, mend)
+}
+
 #[derive(Default)]
 struct Acc {
     programs: u64,
@@ -286,6 +465,108 @@ fn session_pass(menu: &[(&'static str, T)], n: usize, total: &Mutex<Acc>) -> u64
     count
 }
 
+/// Array sweep: every array shape of 1-3 dimensions with bounds 0..2 (and implicit arrays),
+/// every cell filled with a distinct value, then every subscript tuple over 0..=bound+2 (and
+/// 9..=12 for implicit arrays) read and, separately, written, against the reference machine.
+fn array_sweep(total: &Mutex<Acc>) -> u64 {
+    let mut shapes: Vec<Option<Vec<usize>>> = vec![];
+    for rank in 1..=3usize {
+        for code in 0..pow(3, rank) {
+            shapes.push(Some(decode_seq(code, 3, rank)));
+        }
+        shapes.push(None); // marker: implicit array of this rank (filled in below)
+    }
+    let mut jobs: Vec<(usize, Option<Vec<usize>>)> = vec![];
+    let mut rank = 0usize;
+    let mut per_rank = 0usize;
+    for sh in shapes {
+        match &sh {
+            Some(d) => {
+                if d.len() != rank {
+                    rank = d.len();
+                    per_rank = 0;
+                }
+                per_rank += 1;
+                jobs.push((rank, sh));
+            }
+            None => {
+                let _ = per_rank;
+                jobs.push((rank, None));
+            }
+        }
+    }
+    let count = std::sync::atomic::AtomicU64::new(0);
+    jobs.par_iter().for_each(|(rank, shape)| {
+        let rank = *rank;
+        // fill statements
+        let mut fill: Vec<Stmt> = vec![];
+        let bounds: Vec<usize> = match shape {
+            Some(d) => d.clone(),
+            None => vec![10; rank],
+        };
+        let fill_vals: Vec<usize> = if shape.is_some() { vec![] } else { vec![0, 1, 10] };
+        let cells: Vec<Vec<usize>> = {
+            let per: Vec<Vec<usize>> = bounds.iter().map(|b| if shape.is_some() { (0..=*b).collect() } else { fill_vals.clone() }).collect();
+            let mut out = vec![vec![]];
+            for p in per {
+                let mut n = vec![];
+                for o in &out {
+                    for v in &p {
+                        let mut x: Vec<usize> = o.clone();
+                        x.push(*v);
+                        n.push(x);
+                    }
+                }
+                out = n;
+            }
+            out
+        };
+        for (k, c) in cells.iter().enumerate() {
+            fill.push(Stmt::Let(false, lvi("A", c.iter().map(|v| num(*v as f64)).collect()), num(100.0 + k as f64)));
+        }
+        let probe_vals: Vec<usize> = if shape.is_some() { (0..=4).collect() } else { vec![0, 1, 9, 10, 11, 12] };
+        let nprobe = pow(probe_vals.len() as u64, rank);
+        // also with one subscript too many / too few
+        for pi in 0..nprobe {
+            let idx: Vec<usize> = decode_seq(pi, probe_vals.len() as u64, rank).iter().map(|k| probe_vals[*k]).collect();
+            if shape.is_some() && idx.iter().zip(&bounds).all(|(i, b)| *i > b + 2) {
+                continue;
+            }
+            for write in [false, true] {
+                let mut prog = ProgramAst::new();
+                if let Some(d) = shape {
+                    prog.insert(10, vec![Stmt::Dim("A".into(), d.iter().map(|v| num(*v as f64)).collect())]);
+                }
+                prog.insert(20, fill.clone());
+                let ix: Vec<Expr> = idx.iter().map(|v| num(*v as f64)).collect();
+                if write {
+                    prog.insert(30, vec![Stmt::Let(false, lvi("A", ix), num(7.0))]);
+                } else {
+                    prog.insert(30, vec![Stmt::Print(vec![PItem::E(call("A", ix))])]);
+                }
+                // dump every cell
+                let dump: Vec<PItem> = cells.iter().flat_map(|c| vec![PItem::E(call("A", c.iter().map(|v| num(*v as f64)).collect())), PItem::Semi]).collect();
+                prog.insert(40, vec![Stmt::Print(dump)]);
+                let (mut cap, mut undef) = (false, false);
+                count.fetch_add(1, std::sync::atomic::Ordering::Relaxed);
+                if let Some((sig, detail)) = compare(&prog, &mut cap, &mut undef) {
+                    let lines = render_program(&prog);
+                    let mut t = total.lock().unwrap();
+                    t.violating += 1;
+                    if t.viol.len() < 3000 {
+                        t.viol.push(Violation {
+                            signature: format!("{} :: array sweep: {}", lines.join(" | "), sig),
+                            detail,
+                            case: case_program(&lines, &[], 1),
+                        });
+                    }
+                }
+            }
+        }
+    });
+    count.into_inner()
+}
+
 pub fn run(thorough: bool) -> Report {
     let mut rep = Report::new("C03", "exploration");
     let total = Mutex::new(Acc::default());
@@ -312,7 +593,6 @@ pub fn run(thorough: bool) -> Report {
         ("fn", &fnm, 4, 1),
         ("fn", &fnm, 5, 0),
         ("array", &arr, 4, 1),
-        ("array", &arr, 5, 0),
         ("branch", &brm, 4, 2),
         ("branch", &brm, 5, 0),
     ];
@@ -327,6 +607,7 @@ pub fn run(thorough: bool) -> Report {
         plan.push(("data", &data, 7, 0));
         plan.push(("fn", &fnm, 5, 1));
         plan.push(("fn", &fnm, 6, 0));
+        plan.push(("array", &arr, 5, 0));
         plan.push(("array", &arr, 5, 1));
         plan.push(("array", &arr, 6, 0));
         plan.push(("branch", &brm, 5, 2));
@@ -337,6 +618,7 @@ pub fn run(thorough: bool) -> Report {
         fams.push(json!({"menu": name, "menu_size": menu.len(), "statements": n, "join_layouts": match jm { 2 => "all 2^(n-1)", 1 => "none, all, each single join", _ => "none (one statement per line)" }}));
     }
     let session_programs = session_pass(&full, 2, &total) + session_pass(&fnm, 3, &total);
+    let array_sweep_programs = array_sweep(&total);
     let acc = total.into_inner().unwrap();
     if acc.templates_run.len() < full.len() + 8 {
         machinery("vacuous: not every statement template was executed");
@@ -363,6 +645,7 @@ pub fn run(thorough: bool) -> Report {
         "families": fams,
         "distinct_reference_outputs": acc.outputs.len(),
         "session_pass_statement_sequences_run_in_long_lived_interpreters": session_programs,
+        "array_sweep_programs": array_sweep_programs,
         "reference_outcomes": acc.ends,
         "compared_on_prefix_because_of_turn_cap": acc.capped,
         "reference_undefined_not_compared": acc.undefined,
